@@ -27,12 +27,12 @@ func randT(r *rand.Rand, f64 bool, scale float64, shape ...int) tensor.Tensor {
 }
 
 type rnnCfg struct {
-	op               string
-	S, B, In, H      int
-	attrs            []attr
-	X, W, R          tensor.Tensor
-	Bias, H0, C0, P  tensor.Tensor
-	outputs          []string
+	op              string
+	S, B, In, H     int
+	attrs           []attr
+	X, W, R         tensor.Tensor
+	Bias, H0, C0, P tensor.Tensor
+	outputs         []string
 }
 
 func (c *rnnCfg) inputs() []tensor.Tensor {
@@ -188,7 +188,13 @@ func genC06(dir, tier string, seed int64) {
 				continue
 			}
 			yy, err := tensor.Concat(0, o1[0], o2[0])
-			same := err == nil && tval(yy) == tval(whole[0]) && tval(o2[1]) == tval(whole[1])
+			if err != nil {
+				if len(split.Violations) < 10 {
+					split.Violations = append(split.Violations, fmt.Sprintf("%s seq %d batch %d input %d hidden %d split at %d: the Y pieces %v and %v cannot be concatenated along the time axis (%v); the whole run gives Y of shape %v", op, S, B, In, H, k, o1[0].Shape(), o2[0].Shape(), err, whole[0].Shape()))
+				}
+				continue
+			}
+			same := tval(yy) == tval(whole[0]) && tval(o2[1]) == tval(whole[1])
 			if op == "LSTM" {
 				same = same && tval(o2[2]) == tval(whole[2])
 			}
@@ -199,6 +205,7 @@ func genC06(dir, tier string, seed int64) {
 	}
 	nodeOutputs = nil
 	cw.close()
+	split.Distinct = split.N // every case is a fresh random draw / a different model, count or split point
 	meta.GoOnly = append(meta.GoOnly, split)
 }
 
